@@ -457,7 +457,8 @@ def interpolate(re_vars: "re.Pattern[str]", message_text: str, _vars: dict[str, 
 
 
 def _count(val: Any) -> Optional[int]:
-    if val in (None, False, True):
+    # Note that `0 in (None, False, True)` is true.
+    if val is None or isinstance(val, bool):
         return None
     try:
         return int(val)
